@@ -193,8 +193,10 @@ def coq_eval(name, preamble, exprs, shard=400, timeout=900):
             f.write(preamble + "\n")
             for j, e in enumerate(shards[i]):
                 f.write("Eval vm_compute in (%s).\n" % e)
+        # stdout goes to a file: a pipe would fill up (64 KB) and block coqc until we read it
+        out = open(fn + ".out", "wb")
         return subprocess.Popen(["timeout", str(timeout), "coqc", "-noglob", "-Q", COQ, "PV", "-w", "none", fn],
-                                stdout=subprocess.PIPE, stderr=subprocess.STDOUT, cwd=d)
+                                stdout=out, stderr=subprocess.STDOUT, cwd=d)
 
     pending = list(range(len(shards)))
     running = {}
@@ -204,7 +206,7 @@ def coq_eval(name, preamble, exprs, shard=400, timeout=900):
             running[i] = launch(i)
         for i, p in list(running.items()):
             if p.poll() is not None:
-                out = p.stdout.read().decode("utf-8", "replace")
+                out = open(os.path.join(d, "cases_%d.v.out" % i), "rb").read().decode("utf-8", "replace")
                 if p.returncode != 0:
                     raise RuntimeError("coqc failed on cases_%d.v:\n%s" % (i, out[-3000:]))
                 results[i] = out
